@@ -126,7 +126,11 @@ def eval_path(scope, p):
                 if match_step(s, c) and not any(c is x for x in nxt): nxt.append(c)
         cur = nxt
     if p['attr'] is not None:
-        return [('@', n, p['attr']) for n in cur if p['attr'] in n.attrs]
+        ans, al = p['attr']; out = []
+        for n in cur:
+            for key in sorted(n.attrs):
+                if key[0] == ans and (al == '*' or key[1] == al): out.append(('@', n, key))
+        return out
     return cur
 
 def eval_paths(scope, paths):
@@ -232,7 +236,8 @@ class ICModel:
 # carriers: k and f have type K: attributes x (T['kx']), y (T['ky']); children c{0,2} of type C: text T['c'], attribute x T['cx']
 #           j has type J: text T['j'], attribute x T['jx']
 #           n noise (xs:string);  g nested scope (type G, recursive)
-def pfx(tns): return {TNS: 'p'} if tns else {}
+XNS = [('v', 'urn:v'), ('w', 'urn:w')]
+def pfx(tns): return {TNS: 'p', 'urn:v': 'v', 'urn:w': 'w'}
 
 def render_ic(ic, tns, style=0, ind='    '):
     pre = pfx(tns)
@@ -243,28 +248,49 @@ def render_ic(ic, tns, style=0, ind='    '):
     for f in ic.fields: s += '%s  <xs:field xpath="%s"/>\n' % (ind, xm.xml_esc(render_paths(f, pre, style), True))
     return s + '%s</xs:%s>\n' % (ind, ic.kind)
 
-def render_schema(tns, T, ics, style=0, cmax=2):
+def render_schema(tns, T, ics, style=0, cmax=2, lns=None, xns=()):
     q = 'p:' if tns else ''
     a = ' xmlns:xs="%s"' % xm.XS
-    if tns: a += ' xmlns:p="%s" targetNamespace="%s" elementFormDefault="qualified"' % (tns, tns)
+    if lns is None: lns = tns
+    if tns: a += ' xmlns:p="%s" targetNamespace="%s"%s' % (tns, tns, ' elementFormDefault="qualified"' if lns == tns else '')
+    for pr, ns in xns: a += ' xmlns:%s="%s"' % (pr, ns)
+    imports = ''.join('  <xs:import namespace="%s" schemaLocation="%s.xsd"/>\n' % (ns, pr) for pr, ns in xns)
+    xattrs = ''.join('<xs:attribute ref="%s:x"/>' % pr for pr, ns in xns)
+    xrefs = ''.join('      <xs:element ref="%s:k"/>\n      <xs:element ref="%s:f"/>\n' % (pr, pr) for pr, ns in xns)
     for pr, ns in sorted(QNAME_NS.items()): a += ' xmlns:%s="%s"' % (pr, ns)
     on_r = ''.join(render_ic(ic, tns, style) for ic in ics if ic.on == 'r')
     on_g = ''.join(render_ic(ic, tns, style, '        ') for ic in ics if ic.on == 'g')
-    return ('<?xml version="1.0"?>\n<xs:schema%s>\n' % a +
+    return ('<?xml version="1.0"?>\n<xs:schema%s>\n' % a + imports +
             '  <xs:complexType name="C"><xs:simpleContent><xs:extension base="xs:%s"><xs:attribute name="x" type="xs:%s"/></xs:extension></xs:simpleContent></xs:complexType>\n' % (T['c'], T['cx']) +
             '  <xs:complexType name="J"><xs:simpleContent><xs:extension base="xs:%s"><xs:attribute name="x" type="xs:%s"/></xs:extension></xs:simpleContent></xs:complexType>\n' % (T['j'], T['jx']) +
             '  <xs:complexType name="CF"><xs:simpleContent><xs:extension base="xs:%s"><xs:attribute name="x" type="xs:%s"/></xs:extension></xs:simpleContent></xs:complexType>\n' % (T['fc'], T['fcx']) +
             '  <xs:complexType name="K">\n    <xs:sequence><xs:element name="c" type="%sC" minOccurs="0" maxOccurs="%d"/></xs:sequence>\n' % (q, cmax) +
-            '    <xs:attribute name="x" type="xs:%s"/><xs:attribute name="y" type="xs:%s"/>\n  </xs:complexType>\n' % (T['kx'], T['ky']) +
+            '    <xs:attribute name="x" type="xs:%s"/><xs:attribute name="y" type="xs:%s"/>%s\n  </xs:complexType>\n' % (T['kx'], T['ky'], xattrs) +
             '  <xs:complexType name="F">\n    <xs:sequence><xs:element name="c" type="%sCF" minOccurs="0" maxOccurs="%d"/></xs:sequence>\n' % (q, cmax) +
-            '    <xs:attribute name="x" type="xs:%s"/><xs:attribute name="y" type="xs:%s"/>\n  </xs:complexType>\n' % (T['fx'], T['fy']) +
+            '    <xs:attribute name="x" type="xs:%s"/><xs:attribute name="y" type="xs:%s"/>%s\n  </xs:complexType>\n' % (T['fx'], T['fy'], xattrs) +
             '  <xs:complexType name="G">\n    <xs:choice minOccurs="0" maxOccurs="unbounded">\n' +
             '      <xs:element name="k" type="%sK"/>\n      <xs:element name="f" type="%sF"/>\n      <xs:element name="j" type="%sJ"/>\n' % (q, q, q) +
-            '      <xs:element name="n" type="xs:string"/>\n' +
+            '      <xs:element name="n" type="xs:string"/>\n' + xrefs +
             ('      <xs:element name="g" type="%sG">\n%s      </xs:element>\n' % (q, on_g) if on_g else '      <xs:element name="g" type="%sG"/>\n' % q) +
             '    </xs:choice>\n  </xs:complexType>\n' +
             ('  <xs:element name="r" type="%sG">\n%s  </xs:element>\n' % (q, on_r) if on_r else '  <xs:element name="r" type="%sG"/>\n' % q) +
             '</xs:schema>\n')
+
+def render_extra(pr, ns, T):
+    """imported schema for one extra namespace: global attribute pr:x, global elements pr:k / pr:f (attribute-only carriers)"""
+    a = ' xmlns:xs="%s" xmlns:%s="%s" targetNamespace="%s"' % (xm.XS, pr, ns, ns)
+    for qp, qn in sorted(QNAME_NS.items()): a += ' xmlns:%s="%s"' % (qp, qn)
+    return ('<?xml version="1.0"?>\n<xs:schema%s>\n  <xs:attribute name="x" type="xs:%s"/>\n' % (a, T['kx']) +
+            '  <xs:complexType name="K"><xs:attribute name="x" type="xs:%s"/><xs:attribute name="y" type="xs:%s"/><xs:attribute ref="%s:x"/></xs:complexType>\n' % (T['kx'], T['ky'], pr) +
+            '  <xs:complexType name="F"><xs:attribute name="x" type="xs:%s"/><xs:attribute name="y" type="xs:%s"/><xs:attribute ref="%s:x"/></xs:complexType>\n' % (T['fx'], T['fy'], pr) +
+            '  <xs:element name="k" type="%s:K"/>\n  <xs:element name="f" type="%s:F"/>\n</xs:schema>\n' % (pr, pr))
+
+def render_schemas(case):
+    """-> {sysid: text}: s.xsd plus one imported document per extra namespace"""
+    xns = case.get('xns', [])
+    out = {'s.xsd': render_schema(case['tns'], case['T'], case['ics'], case['style'], lns=case.get('lns', case['tns']), xns=xns)}
+    for pr, ns in xns: out[pr + '.xsd'] = render_extra(pr, ns, case['T'])
+    return out
 
 def typing_for(tns, T):
     def typing(n, parent=None):
@@ -274,6 +300,7 @@ def typing_for(tns, T):
             return ('fc', 'fcx') if p is not None and p.name == 'f' else ('c', 'cx')
         if isinstance(n, tuple):
             _, el, key = n
+            if key[0] in ('urn:v', 'urn:w') and key[1] == 'x' and el.name in ('k', 'f'): return T['kx']      # global attribute v:x / w:x
             if key != ('', 'x') and key != ('', 'y'): return None
             if el.name == 'k': return T['kx'] if key[1] == 'x' else T['ky']
             if el.name == 'f': return T['fx'] if key[1] == 'x' else T['fy']
@@ -316,7 +343,9 @@ SELECTORS_EXT = [('.//k', ['k']), ('g/k', ['k']), ('*/k', ['k']), ('.//g/k', ['k
 
 def set_slot(node, slot, lex, tns):
     slot = {'fx': 'kx', 'fy': 'ky', 'fc': 'c', 'fcx': 'cx'}.get(slot, slot)
-    if slot in ('kx', 'jx'): node.attrs[('', 'x')] = lex
+    if slot == 'vx': node.attrs[('urn:v', 'x')] = lex
+    elif slot == 'wx': node.attrs[('urn:w', 'x')] = lex
+    elif slot in ('kx', 'jx'): node.attrs[('', 'x')] = lex
     elif slot == 'ky': node.attrs[('', 'y')] = lex
     elif slot == 'j': node.children = [lex] if lex != '' else []
     elif slot == 'c':
@@ -453,7 +482,129 @@ def gen_case(draw, ext=False, big=False, propagate=False, related=True):
         labels.append('nested')
     else:
         root.children = nodes
-    return {'tns': tns, 'T': T, 'ics': ics, 'style': style, 'root': root, 'labels': labels}
+    return {'tns': tns, 'lns': tns, 'xns': [], 'T': T, 'ics': ics, 'style': style, 'root': root, 'labels': labels}
+
+# ---- multi-namespace cases: carriers in 2-3 namespaces, namespace-wildcard steps, unions differing in one namespace / one name ---------
+def ns_path(expr, lns, attr_ok=True):
+    """'v:k', 'p:*', '*', './/g/v:*', '@v:*', '@x' ... -> path AST; an unprefixed / p: name lies in the local-element namespace lns"""
+    nsof = {'p': lns, 'v': 'urn:v', 'w': 'urn:w'}
+    desc = expr.startswith('.//')
+    if desc: expr = expr[3:]
+    steps = []; attr = None
+    for part in expr.split('/'):
+        if part == '.': steps.append('.')
+        elif part == '*': steps.append('*')
+        elif part.startswith('@'):
+            q = part[1:]
+            attr = (nsof[q.split(':')[0]], q.split(':')[1]) if ':' in q else ('', q)
+        elif ':' in part: steps.append((nsof[part.split(':')[0]], part.split(':')[1]))
+        else: steps.append((lns, part))
+    return {'desc': desc, 'steps': steps, 'attr': attr}
+
+@st.composite
+def gen_case_ns(draw, big=False, related=True):
+    tns = draw(st.sampled_from(['', TNS, TNS]))
+    efd = draw(st.sampled_from(['qualified', 'qualified', 'unqualified'])) if tns else 'unqualified'
+    lns = tns if efd == 'qualified' else ''
+    xns = XNS[:draw(st.sampled_from([1, 1, 2]))]
+    two = len(xns) == 2
+    types = CORE_TYPES + EXT_TYPES + (['decimal', 'integer', 'long', 'nonNegativeInteger', 'normalizedString', 'short'] if related else [])
+    T = {s: draw(st.sampled_from(types)) for s in ('kx', 'ky', 'c', 'cx', 'j')}
+    def rel(t): return draw(st.sampled_from(related_types(t))) if related and draw(st.integers(0, 2)) > 0 else t
+    T['fx'] = rel(T['kx']); T['fy'] = rel(T['ky']); T['fc'] = T['c']; T['fcx'] = T['cx']; T['jx'] = T['kx']
+    T['vx'] = T['wx'] = T['kx']
+    style = draw(st.sampled_from([0, 0, 1, 2]))
+    sels = [('v:k', ['v:k']), ('k|v:k', ['k', 'v:k']), ('v:k|k', ['k', 'v:k']), ('v:*', ['v:k']), ('*', ['k', 'v:k']), ('.//v:k', ['v:k']), ('g/v:*', ['v:k']),
+            ('*/v:k', ['v:k']), ('./v:k|./k', ['k', 'v:k']), ('g/k|g/v:k', ['k', 'v:k'])]
+    if lns: sels += [('p:*|v:*', ['k', 'v:k']), ('v:*|p:*', ['k', 'v:k']), ('p:*|v:*', ['v:k']), ('g/p:*|g/v:*', ['k', 'v:k']), ('.//p:*|.//v:*', ['v:k', 'k'])]
+    if two: sels += [('v:*|w:*', ['v:k', 'w:k']), ('w:*|v:*', ['v:k', 'w:k']), ('v:*|w:*', ['w:k']), ('v:k|w:k', ['v:k', 'w:k']), ('g/v:*|g/w:*', ['v:k', 'w:k']),
+                     ('w:k', ['w:k']), ('.//v:*|.//w:*', ['w:k', 'v:k'])]
+    sel, carriers = draw(st.sampled_from(sels))
+    has_w = any(c.startswith('w:') for c in carriers)
+    fopts = ['@x', '@y'] + ([] if has_w else ['@v:x', '@v:*']) + (['@v:*|@w:*', '@w:*|@v:*'] if two else [])
+    f1 = draw(st.sampled_from(fopts)); fields = [f1]
+    if draw(st.booleans()):
+        f2 = draw(st.sampled_from(['@x', '@y']))
+        if f2 != f1: fields.append(f2)
+    wild = '*' in sel
+    kind = draw(st.sampled_from(['unique', 'unique', 'key'] if wild else ['unique', 'key', 'key']))
+    on = 'g' if draw(st.integers(0, 4)) == 0 else 'r'
+    def paths(e): return [ns_path(x, lns) for x in e.split('|')]
+    ics = [IC(kind, 'K1', paths(sel), [paths(f) for f in fields], on=on)]
+    labels = ['multins', 'nsmode:%d' % len(xns), 'efd:' + efd, 'sel:' + sel, 'kind:' + kind, 'nfields:%d' % len(fields), 'on:' + on] + ['field:' + f for f in fields]
+    if '|' in sel and '*' in sel: labels.append('union-of-ns-wildcards')
+    if any('|' in f for f in fields): labels.append('field-union-of-ns-wildcards')
+    have_ref = draw(st.booleans())
+    rcar = []
+    if have_ref:
+        vonly = any(f in ('@v:x', '@v:*') for f in fields)        # w:f has no v:x attribute
+        rsel, rcar = draw(st.sampled_from([('f', ['f']), ('v:f', ['v:f']), ('f|v:f', ['f', 'v:f']), ('v:f|f', ['f', 'v:f'])] + ([('v:f|w:f', ['v:f', 'w:f'])] if two and not vonly else [])))
+        ics.append(IC('keyref', 'R1', paths(rsel), [paths(f) for f in fields], refer='K1', on=on))
+        labels += ['keyref', 'refsel:' + rsel]
+    def local(car): return car.split(':')[-1]
+    def ns_of(car): return {'v': 'urn:v', 'w': 'urn:w'}[car.split(':')[0]] if ':' in car else lns
+    def slot_of(f, car):
+        if f in ('@x', '@y'): return slots_for(local(car))[f]
+        if f in ('@v:x', '@v:*'): return 'vx'
+        if car.startswith('v:'): return 'vx'
+        if car.startswith('w:'): return 'wx'
+        return draw(st.sampled_from(['vx', 'wx']))
+    def types_at(f):
+        if f in ('@x', '@y'): return {T[slots_for(local(c))[f]] for c in carriers + rcar}
+        return {T['kx']}
+    poolsz = {f: (COMMON if len(types_at(f)) > 1 else len(POOLS[next(iter(types_at(f)))])) for f in fields}
+    if any(len(types_at(f)) > 1 for f in fields): labels.append('related-types')
+    n = draw(st.integers(0, 8)) if not big else draw(st.integers(20, 50))
+    mode = draw(st.sampled_from(['distinct', 'distinct', 'plant-dup', 'plant-dup', 'plant-absent', 'random']))
+    labels.append('mode:' + mode)
+    def rnd_tuple(): return tuple(draw(st.integers(0, poolsz[f] - 1)) for f in fields)
+    table = []
+    for _ in range(n):
+        t = rnd_tuple()
+        if mode != 'random' and t in table: continue
+        table.append(t)
+    if mode == 'plant-dup' and table: table.insert(draw(st.integers(0, len(table))), draw(st.sampled_from(table)))
+    absent_at = (draw(st.integers(0, len(table) - 1)), draw(st.integers(0, len(fields) - 1))) if mode == 'plant-absent' and table else None
+    def lex_of(tname, vid): return draw(st.sampled_from(POOLS[tname][vid]))
+    def mk(car, tup, skip=None):
+        node = xm.Node(ns_of(car), local(car)); used = set()
+        for i, (f, vid) in enumerate(zip(fields, tup)):
+            slot = slot_of(f, car); used.add(slot)
+            if '|' in f: used |= {'vx', 'wx'}
+            if skip == i: continue
+            set_slot(node, slot, lex_of(T[slot], vid), lns)
+        avail = [slots_for(local(car))['@x'], slots_for(local(car))['@y']] + (['vx'] if not car.startswith('w:') else []) + (['wx'] if two and not car.startswith('v:') else [])
+        for slot in avail:
+            if slot in used or (slot in ('vx', 'wx') and ({'vx', 'wx'} & used)): continue
+            if draw(st.booleans()): set_slot(node, slot, lex_of(T[slot], draw(st.integers(0, len(POOLS[T[slot]]) - 1))), lns)
+        return node
+    nodes = []
+    # the decisive tuples (planted duplicate / last rows) are biased into the LAST listed carrier: the second member of a union
+    for i, tup in enumerate(table):
+        car = carriers[-1] if draw(st.integers(0, 2)) > 0 else draw(st.sampled_from(carriers))
+        nodes.append(mk(car, tup, skip=absent_at[1] if absent_at and absent_at[0] == i else None))
+    if have_ref:
+        rmode = draw(st.sampled_from(['resolve', 'resolve', 'dangling', 'random'])); labels.append('rmode:' + rmode)
+        for _ in range(draw(st.integers(0, 6))):
+            tup = draw(st.sampled_from(table)) if rmode in ('resolve', 'dangling') and table else rnd_tuple()
+            nodes.append(mk(draw(st.sampled_from(rcar)), tup))
+        if rmode == 'dangling':
+            missing = [t for t in [rnd_tuple() for _ in range(6)] if t not in table]
+            if missing: nodes.append(mk(draw(st.sampled_from(rcar)), missing[0]))
+    for _ in range(draw(st.integers(0, 2))): nodes.append(xm.Node(lns, 'n', children=['noise']))
+    nodes = list(draw(st.permutations(nodes)))
+    root = xm.Node(tns, 'r')
+    if on == 'g' or 'g/' in sel or '*/' in sel or './/' in sel or draw(st.integers(0, 2)) == 0:
+        ng = draw(st.integers(1, 3)); gs = [xm.Node(lns, 'g') for _ in range(ng)]
+        for x in nodes:
+            w = draw(st.integers(0, ng))
+            (root if w == ng else gs[w]).children.append(x)
+        if ng > 1 and draw(st.booleans()) and on != 'g': gs[0].children.append(gs.pop())
+        for gnode in gs: root.children.insert(draw(st.integers(0, len(root.children))), gnode)
+        labels.append('nested')
+    else:
+        root.children = nodes
+    return {'tns': tns, 'lns': lns, 'xns': xns, 'T': T, 'ics': ics, 'style': style, 'root': root, 'labels': labels}
 
 def permuted(draw, root):
     """same tuples, different document order inside every scope"""
@@ -469,6 +620,7 @@ def extended(case, root, k=5):
     integer/decimal/string/token typed fields, else returns None"""
     ic = case['ics'][0]; T = case['T']; tns = case['tns']
     if len([x for x in case['ics'] if x.kind != 'keyref']) != 1: return None      # fresh carriers must not meet another constraint
+    if case.get('xns'): return None
     r = root.copy()
     fresh = {'integer': lambda i: str(1000 + i), 'decimal': lambda i: '%d.25' % (1000 + i), 'string': lambda i: 'fresh%d' % i, 'token': lambda i: 'fresh%d' % i,
              'long': lambda i: str(1000 + i), 'short': lambda i: str(1000 + i), 'nonNegativeInteger': lambda i: str(1000 + i), 'normalizedString': lambda i: 'fresh%d' % i}
